@@ -432,10 +432,19 @@ func absFunctionCalculator(parameters []*variants.Variant,
 	result := variants.EmptyVariant()
 	switch value.Type() {
 	case variants.Integer:
-		result.SetAsInteger(int(math.Abs(float64(value.AsInteger()))))
+		// Computed on integers: a detour through float64 loses digits beyond 2^53
+		if value.AsInteger() < 0 {
+			result.SetAsInteger(-value.AsInteger())
+		} else {
+			result.SetAsInteger(value.AsInteger())
+		}
 		break
 	case variants.Long:
-		result.SetAsLong(int64(math.Abs(float64(value.AsLong()))))
+		if value.AsLong() < 0 {
+			result.SetAsLong(-value.AsLong())
+		} else {
+			result.SetAsLong(value.AsLong())
+		}
 		break
 	case variants.Float:
 		result.SetAsFloat(float32(math.Abs(float64(value.AsFloat()))))
